@@ -5,7 +5,8 @@
   replay code; bytes/encodings are C03's business), of
 
     pkg/rdbrestore/restore.go   RdbReplay.Replay        (`replay`)  — REPAIRED
-        behaviour for D7: with policy `ignore` and an existing key the
+        behaviour for D24 ("Bad data format" fallback keeps policy and expiry) and
+        for D7: with policy `ignore` and an existing key the
         expansion path returns right after the probe and remembers the key so
         that the remaining chunks of the same value are skipped as well;
     syncer/bisync_rdb.go        buildBisyncRdbReplayUnit (`buildUnit`) with
@@ -69,6 +70,9 @@ inductive Req
   | del     (k : Bytes)
   | pexpire (k : Bytes) (ttl : Nat)
   | restore (k : Bytes) (ttl : Nat) (payload : Bytes) (opts : List Bytes) (replace : Bool)
+  /-- the same RESTORE on the wire, answered `ERR Bad data format` by a target
+      that cannot load the payload (older version): no effect -/
+  | restoreBad (k : Bytes) (ttl : Nat) (payload : Bytes) (opts : List Bytes) (replace : Bool)
   | data    (c : Cmd)            -- native data command on key `c.args.head`
   | raw     (c : Cmd)            -- function / aux commands (no data key)
   | select  (db : Nat)
@@ -84,6 +88,9 @@ inductive Outcome | ok | errExists | errModule
     exists when the entry is replayed (EXISTS reply / RESTORE → BUSYKEY) -/
 structure View where
   keyExists : Bool
+  /-- the target refuses this entry's payload with "Bad data format" (asked only
+      after the BUSYKEY test, as Redis does) -/
+  badData : Bool := false
   deriving Repr
 
 /-- `ttlms` of `Replay` / `bisyncRdbTTLms` -/
@@ -123,9 +130,23 @@ def replay (pol : Policy) (cfg : Cfg) (st : RState) (v : View) (e : Entry) : Lis
       let r0 := Req.restore e.key ttl e.dump (restoreOpts cfg e) false
       if v.keyExists then                                                -- BUSYKEY
         match pol with
-        | .replace => ([r0, Req.restore e.key ttl e.dump (restoreOpts cfg e) true], .ok, st)
+        | .replace =>
+          if v.badData then
+            -- REPAIRED (D24): "Bad data format" falls back to the expansion
+            -- branch with its policy handling (probe, DEL) and its PEXPIRE
+            if e.otype = .module then
+              ([r0, Req.restoreBad e.key ttl e.dump (restoreOpts cfg e) true], .errModule, st)
+            else
+              (r0 :: Req.restoreBad e.key ttl e.dump (restoreOpts cfg e) true ::
+                Req.exists e.key :: Req.del e.key :: expand cfg e, .ok, none)
+          else ([r0, Req.restore e.key ttl e.dump (restoreOpts cfg e) true], .ok, st)
         | .ignore  => ([r0], .ok, st)
         | .error   => ([r0], .errExists, st)
+      else if v.badData then
+        if e.otype = .module then
+          ([Req.restoreBad e.key ttl e.dump (restoreOpts cfg e) false], .errModule, st)
+        else
+          (Req.restoreBad e.key ttl e.dump (restoreOpts cfg e) false :: Req.exists e.key :: expand cfg e, .ok, none)
       else ([r0], .ok, st)
     else if e.otype = .module then ([], .errModule, st)
     else if e.first then
@@ -195,6 +216,8 @@ structure Target where
   cur : Nat := 0
   now : Nat
   ks  : KS
+  /-- keys whose RESTORE payload this target cannot load ("Bad data format") -/
+  bad : Bytes → Bool := fun _ => false
 
 def Target.get (t : Target) (k : Bytes) : Option Obj := t.ks t.cur k
 
@@ -204,7 +227,11 @@ def KS.set (ks : KS) (db : Nat) (k : Bytes) (o : Option Obj) : KS :=
 def Target.put (t : Target) (k : Bytes) (o : Option Obj) : Target :=
   { t with ks := t.ks.set t.cur k o }
 
-def cmdKey (c : Cmd) : Bytes := c.args.headD []
+def sXGROUP : Bytes := [120, 103, 114, 111, 117, 112]
+
+/-- the key a native command writes: its first argument, except `XGROUP <sub> key …` -/
+def cmdKey (c : Cmd) : Bytes :=
+  if c.name = sXGROUP then (c.args.drop 1).headD [] else c.args.headD []
 
 /-- a native data command seen from its key's object: creates the key (no
     expiry) or appends to the value's command log; the expiry of an existing
@@ -246,7 +273,8 @@ def applyReq (t : Target) (r : Req) : Target :=
 
 def applyReqs (t : Target) (rs : List Req) : Target := rs.foldl applyReq t
 
-def viewOf (t : Target) (e : Entry) : View := { keyExists := (t.get e.key).isSome }
+def viewOf (t : Target) (e : Entry) : View :=
+  { keyExists := (t.get e.key).isSome, badData := t.bad e.key }
 
 /-! ### a replay worker over a list of entries (one connection) -/
 
